@@ -12,7 +12,7 @@ from ..norm import Normalizer, NormError
 from ..exc import EscapeAnalysis
 from ._kit_c06 import SymExec, ShapedEscapes, txt, parse as P, callable_body, _walk_values, apply_callable, filtered_iter, handler_types, inline_walrus
 from ._kit_c06 import CollView, kind_of_container, views_at_result, container_views_at_result, function_of_fields
-from ._kit_c06 import CUnsupported, CRaise, CMethod, CVal, CHandle, ConcreteEval, fresh_timeoutdict, run_tick, tick_tables, recent_subset_invariant
+from ._kit_c06 import CUnsupported, CRaise, CMethod, CVal, CHandle, ConcreteEval, fresh_timeoutdict, run_tick, tick_tables, recent_subset_invariant, run_history, history_tables
 
 R = Rules(
     "C06",
@@ -40,7 +40,10 @@ R = Rules(
         "get and set, _tick keeps exactly the recently accessed keys and re-arms iff items remain (decided by its effect: the "
         "checker's own interpreter runs _tick on every table of up to three stored keys x every set of used keys and compares "
         "the final state -- entries, pending timers, handle, set of used keys -- with the specification), and both stores use "
-        "MAX_TRANSMIT_WAIT (paper step: lifetime in [T, 2T]).  Interleavings of several clients at run time are not decided."
+        "MAX_TRANSMIT_WAIT; (h) the lifetime bound itself over histories: a fresh TimeoutDict is driven through its public protocol "
+        "on a model loop whose timers fire when due (accesses within a period, across a tick, across and long after an idle phase "
+        "in which the timer stopped) and a key is found 0.97 lifetimes and not found 2.03 lifetimes after its last use -- whatever "
+        "state the class keeps between periods.  Interleavings of several clients at run time are not decided."
     ),
     rule_text="escape sets over the resolved call graph with class-code facts, call shapes decided by abstract execution of the callee (keyword sets, sentinels, values); symbolic path facts (interval facts with transitive difference bounds for block arithmetic, truth facts otherwise) with forward-substituted values, namedtuple components / properties / helper functions read as their definitions; concrete evaluation of the expiry step on small tables (the checker's own syntax-tree interpreter over its own values)",
 )
@@ -1546,6 +1549,61 @@ def g(ctx):
     _lifetimes(ctx, prog, td)
 
 
+@R.clause("C06.h", "TimeoutDict over histories: an entry survives one lifetime after its last use and is gone after two, whatever was used or idle before")
+def h(ctx):
+    """The lifetime bound decided over HISTORIES instead of over one step from a fabricated state: the kit's concrete
+    evaluator drives a fresh TimeoutDict through its public protocol only (__init__, __setitem__, __getitem__) on a model
+    loop with a clock whose timers (call_later / call_at / call_soon, whichever the class uses) fire exactly when due, for
+    every history of `history_tables()` -- accesses within a period, across a tick, across an idle phase in which the timer
+    has stopped, long after it --, and then looks the key up
+
+      * 0.97 lifetimes after its last use: the value of the last set must be returned (`survives at least MAX_TRANSMIT_WAIT`);
+      * 2.03 lifetimes after its last use: KeyError (`discarded within twice that time`).
+
+    This is the statement of the property itself on an ideal loop, so whatever state the class keeps between periods
+    (deadlines, generation counters, a stopped timer's leftovers) is covered without the clause knowing it: a run that
+    misses is a genuine counterexample, and no behaviour-preserving spelling can produce one.  Spellings outside the
+    evaluator's vocabulary are not decided here (note; C06.g still decides the single steps)."""
+    prog = ctx.prog
+    td = "util.asyncio.timeoutdict.TimeoutDict."
+    geti = prog.func(td + "__getitem__")
+    cls = geti.cls
+    if cls is None:
+        raise AnchorError("TimeoutDict is not a class")
+    T = 93.0
+    early = late = other = None
+    n = 0
+    try:
+        for events in history_tables():
+            for key in sorted({k for _, op, k in events if op == "set"}):
+                for probe_at in {round(t + d, 6) for t, op, k in events if k == key for d in (0.97, 2.03) if t + d > events[-1][0]}:
+                    r = run_history(prog, cls, T, events, key, probe_at)
+                    n += 1
+                    if r.raised is not None:
+                        other = other or "%s: %s raises %s" % (r.describe(), r.raised_in, type(r.raised).__name__)
+                        continue
+                    if r.early_loss is not None:
+                        early = early or "%s: k%d is not found at %.4gT" % (r.describe(), r.early_loss[0][1], r.early_loss[1])
+                    if r.last_use is None:
+                        continue
+                    if probe_at < r.last_use + 1:
+                        if r.missing:
+                            early = early or "%s: KeyError %.2f lifetimes after its last use" % (r.describe(), probe_at - r.last_use)
+                        elif r.found is not r.value:
+                            other = other or "%s: returns something else than the value stored last" % r.describe()
+                    elif probe_at > r.last_use + 2:
+                        if not r.missing:
+                            late = late or "%s: still found %.2f lifetimes after its last use" % (r.describe(), probe_at - r.last_use)
+    except CUnsupported as u:
+        ctx.note("TimeoutDict lifetimes over histories not decided (concrete evaluation: %s)" % u)
+        return
+    ctx.note("TimeoutDict lifetimes decided by concrete evaluation of %d histories" % n)
+    so = geti
+    ctx.ob("an entry is found until one lifetime after its last use, in every history", early is None, so, so.node, detail=early, construct="TimeoutDict history: survives T")
+    ctx.ob("an entry is gone two lifetimes after its last use, in every history", late is None, so, so.node, detail=late, construct="TimeoutDict history: gone after 2T")
+    ctx.ob("no access or timer callback fails in any history", other is None, so, so.node, detail=other, construct="TimeoutDict history: runs")
+
+
 def _start_over_symbolic(ctx, prog, so):
     """only for spellings of _start_over outside the concrete evaluator's vocabulary"""
     ss = SymExec(prog, so, include_exc=False)
@@ -1676,3 +1734,6 @@ R.seed("C06.c", "aiocoap/transports/udp6.py", "        return (self.sockaddr, se
 R.seed("C06.c", F_M, "            options.append((option.number, option.value))\n\n        return (self.code, tuple(options))", "            options.append((option.number, option.value))\n\n        return (self.code, tuple(dict(options).items()))", "options de-duplicated by number on the way into the key: ?dev=1&slot=x and ?dev=2&slot=x share a transfer")
 R.seed("C06.c", F_M, "        return (self.code, tuple(options))", "        return (self.code, frozenset(options))", "the key is a set of options: /a/b and /b/a below a path-capable site share a transfer")
 R.seed("C06.c", F_M, "        options = []\n\n        for option in self.opt.option_list():\n            if option.number in ignore_options or (\n                option.number.is_safetoforward() and option.number.is_nocachekey()\n            ):\n                continue\n            options.append((option.number, option.value))\n\n        return (self.code, tuple(options))", "        options = {}\n\n        for option in self.opt.option_list():\n            if option.number in ignore_options or (\n                option.number.is_safetoforward() and option.number.is_nocachekey()\n            ):\n                continue\n            options[option.number] = option.value\n\n        return (self.code, tuple(options.items()))", "the key is built in a dictionary keyed by option number: only the last instance of a repeated option separates transfers")
+R.seed("C06.h", F_T, "call_later(self.timeout, self._tick)", "call_later(self.timeout * 0.9, self._tick)", "the period is a little shorter than the lifetime: an entry set while the timer is idle is dropped after 0.9 lifetimes")
+R.seed("C06.h", F_T, "            self._timeout = None\n            self._recently_accessed = None", "            self._recently_accessed = set()", "a dict that has run empty keeps the handle of its last timer: after an idle phase no timer is armed again and nothing expires any more")
+R.seed("C06.h", F_T, "        self._timeout = asyncio.get_running_loop().call_later(self.timeout, self._tick)\n", "        loop = asyncio.get_running_loop()\n        self._timeout = loop.call_at(loop.time() + (self.timeout if self._timeout is None else 0.0), self._tick)\n", "a re-armed period ends at once (absolute deadline without the lifetime): an entry used during the first period is gone right after its end")
